@@ -39,6 +39,7 @@ pub const K1: u32 = 1 << 26;
 pub const K3: u32 = 1 << 27;
 pub const K2: u32 = 1 << 28;
 pub const KEY_MODS: &[u32] = &[K1, K2, K3, K4, K5, K6, K7, K8, K9];
+pub const KEY_BITS_MASK: u32 = K1 | K2 | K3 | K4 | K5 | K6 | K7 | K8 | K9;
 
 pub fn mode_to_rm(mode: GameMode) -> rm::GameMode {
     match mode {
@@ -56,6 +57,10 @@ pub enum Repr {
     Intermode,
     IntermodeRef,
     Lazer,
+    /// The lazer mods of this spec stripped of their settings, as `GameModsIntermode` (owned / borrowed). Only generated
+    /// when every setting is at its default, and never by C08 (whose quantifier is about legacy-representable mods).
+    LazerAsIntermode,
+    LazerAsIntermodeRef,
 }
 
 pub const ALL_REPRS: &[Repr] = &[
@@ -309,11 +314,18 @@ impl ModSpec {
             Repr::Intermode => GameModsIntermode::from_bits(self.bits).into(),
             Repr::IntermodeRef => (&GameModsIntermode::from_bits(self.bits)).into(),
             Repr::Lazer => self.to_lazer(mode).into(),
+            Repr::LazerAsIntermode => self.to_lazer(mode).iter().map(GameMod::intermode).collect::<GameModsIntermode>().into(),
+            Repr::LazerAsIntermodeRef => (&self.to_lazer(mode).iter().map(GameMod::intermode).collect::<GameModsIntermode>()).into(),
         }
     }
 
+    /// Lazer mods, or the same set of mods handed over as `GameModsIntermode`.
+    pub fn is_lazer_like(&self) -> bool {
+        matches!(self.repr, Repr::Lazer | Repr::LazerAsIntermode | Repr::LazerAsIntermodeRef)
+    }
+
     pub fn describe(&self) -> String {
-        if self.repr == Repr::Lazer && !self.extra.is_default() {
+        if self.is_lazer_like() && !self.extra.is_default() {
             format!("{:?}:{}:{:?}", self.repr, self.bits, self.extra)
         } else {
             format!("{:?}:{}", self.repr, self.bits)
@@ -525,6 +537,22 @@ pub fn gen_mods(rng: &mut Rng, mode: GameMode) -> ModSpec {
             extra.daycore = rng.chance(0.3);
         }
     }
+    // a lazer mod set without any setting can equally be handed over as GameModsIntermode (owned or by reference):
+    // mods without a legacy bit (CL, HO, IN, 10K, DC ...) travel through different conversion code that way
+    let settings_free = extra.da.is_none()
+        && extra.speed_change.is_none()
+        && extra.cl.is_none_or(|c| c.is_none())
+        && extra.mirror.is_none()
+        && extra.random.is_none_or(|r| r.is_none());
+    let repr = if repr == Repr::Lazer && settings_free && rng.chance(0.4) {
+        if rng.chance(0.5) {
+            Repr::LazerAsIntermode
+        } else {
+            Repr::LazerAsIntermodeRef
+        }
+    } else {
+        repr
+    };
     ModSpec { bits, repr, extra }
 }
 
